@@ -14,11 +14,11 @@ import re, os, hashlib
 SR = "src/serialize.rs"
 KEYWORDS = {"end", "from", "at", "in", "then", "do", "fun", "where", "with", "open", "show", "have", "by", "local", "prefix", "instance", "self"}
 SCALAR = ("u64", "usize", "u8", "int")          # all `Nat` in Lean
-PREFIX = {"u64": "u64", "usize": "usize", "u8": "u8", "bool": "bool", "f64": "f64", "Modulus": "modulus", "SchemeType": "scheme",
+PREFIX = {"SecretKey": "sk", "u64": "u64", "usize": "usize", "u8": "u8", "bool": "bool", "f64": "f64", "Modulus": "modulus", "SchemeType": "scheme",
           "ParmsID": "pid", "EncryptionParameters": "params", "Plaintext": "plain"}
 LEAN_TY = {"u64": "Nat", "usize": "Nat", "u8": "Nat", "int": "Nat", "bool": "Bool", "f64": "Nat", "Modulus": "Nat", "SchemeType": "Nat",
            "ParmsID": "List Nat", "EncryptionParameters": "Params", "Plaintext": "Plain", "I": "α", "unit": "Unit", "bytes": "Bytes",
-           "Level": "Level", "CtV": "CtV", "Ciphertext": "CtV", "CdParms": "Level", "HeContext": "Ctx", "CtFlat": "CtFlat", "PublicKey": "CtV", "KSwitchKeys": "KSwitch CtV", "RelinKeys": "KSwitch CtV", "GaloisKeys": "KSwitch CtV"}
+           "Level": "Level", "CtV": "CtV", "Ciphertext": "CtV", "CdParms": "Level", "HeContext": "Ctx", "CtFlat": "CtFlat", "SecretKey": "Plain", "PublicKey": "CtV", "KSwitchKeys": "KSwitch CtV", "RelinKeys": "KSwitch CtV", "GaloisKeys": "KSwitch CtV"}
 # context-dependent serializers (`x.serialize(context, stream)`): static type -> generated function
 CTX_PREFIX = {"Ciphertext": "ct", "PublicKey": "pk", "KSwitchKeys": "kswitch", "RelinKeys": "relin", "GaloisKeys": "galois"}
 # functions translated elsewhere (Gen/WordFns.lean, partial: `R`): name -> (Lean name, result type)
@@ -44,6 +44,7 @@ ACCESSORS = {
     ("CdParms", "scheme", 0): ("SchemeType", "{0}.scheme"),
     ("CdParms", "coeff_modulus", 0): (("vec", "Modulus"), "{0}.moduli"),
     ("CdParms", "poly_modulus_degree", 0): ("usize", "{0}.n"),
+    ("SecretKey", "as_plaintext", 0): ("Plaintext", "{0}"),                # a SecretKey is represented by its plaintext (`SecretKey::new(p)` = p)
     ("PublicKey", "as_ciphertext", 0): ("Ciphertext", "{0}"),             # a PublicKey is represented by (the view of) its ciphertext
     ("KSwitchKeys", "parms_id", 0): ("ParmsID", "{0}.pid"),               # `Codec.KSwitch CtV`
     ("KSwitchKeys", "keys", 0): (("vec", ("vec", "PublicKey")), "{0}.keys"),
@@ -70,6 +71,7 @@ STATICS = {
     ("u64", "from_le_bytes", 1): ("u64", "(leVal {1})", None),
     ("usize", "from_le_bytes", 1): ("usize", "(leVal {1})", None),
     ("EncryptionParameters", "new", 1): ("EncryptionParameters", "(Params.mk {1} 0 [] 0 false)", None),
+    ("SecretKey", "new", 1): ("SecretKey", "{1}", None),
     ("Plaintext", "new", 0): ("Plaintext", "(Plain.mk [0, 0, 0, 0] [] oneF64)", None),
 }
 # builder / mutator methods: (type, method) -> (Lean template of the new object, guard template or None); {0} receiver, {1} argument
@@ -231,7 +233,7 @@ class Lower:
         if self.ent.get("expand"): b.append("(expand : List Nat → Level → List Nat)")
         if self.generic:
             b.insert(0, "{α : Type}")
-            b.append({"W": "(item' : α → W S E Nat)", "R": "(item' : Rd α)", "T": "(item' : α → Nat)", "P": "(item' : α → Nat)"}[self.mode])
+            b.append({"W": "(item' : α → W S E Nat)", "R": "(item' : Rd α)", "T": "(item' : α → Nat)", "P": "(item' : α → R Nat)"}[self.mode])
         return " ".join(b)
     def ctx_args(self):
         a = []
@@ -279,6 +281,17 @@ class Lower:
         if target not in self.gen.done and target != self.name: self.fail(f"`{kind}` of {t} is used before it is generated")
         if kind == "serialized_size" and self.gen.done.get(target, self.mode) not in ("T",): self.fail(f"{target} is not total")
         return f"{target} {st}".strip()
+
+    def csize_fn(self, t, cx):
+        """the generated context-dependent `serialized_size` (partial: `R Nat`) for static type t"""
+        if isinstance(t, tuple) and t[0] == "vec": return f"cvec_serialized_size {wrap(self.csize_fn(t[1], cx))}"
+        if t == "I":
+            if not self.generic: self.fail("generic item outside a generic impl")
+            return "item'"
+        if t not in CTX_PREFIX: self.fail(f"`serialized_size(context)` on type {t}")
+        target = f"{CTX_PREFIX[t]}_serialized_size"
+        if target not in self.gen.done: self.fail(f"{target} is used before it is generated")
+        return f"{target} {cx}"
 
     def cser_fn(self, t, cx):
         """the generated context-dependent `serialize` for static type t"""
@@ -482,6 +495,11 @@ class Lower:
             return self.cmap(recv[1], args[0], env, k)
         if m == "collect" and not args: return self.ce(recv, env, k)
         def kr(c, t):
+            if m == "serialized_size" and len(args) == 1 and args[0][0] == "path" and len(args[0][1]) == 1 \
+                    and env.get(args[0][1][0], (None, None))[1] == "HeContext":
+                if self.mode != "P": self.fail("context-dependent serialized_size outside a P function")
+                v = self.fresh()
+                return self.bind(f"{self.csize_fn(t, env[args[0][1][0]][0])} {c}", v, k(v, "usize"))
             if m == "serialized_size" and not args: return k(f"({self.ser_fn('serialized_size', t)} {c})", "usize")
             if m == "len" and not args and isinstance(t, (tuple, list)) and t[0] in ("vec", "arr"): return k(f"{c}.length", "usize")
             if m == "to_le_bytes" and not args and t in ("u64", "usize"): return k(f"(leBytes {self.gen.sizes[t]} {c})", ("bytes", None, self.gen.sizes[t]))
@@ -1146,6 +1164,7 @@ TABLE = (
     + impl_entries("EncryptionParameters", "Serializable for EncryptionParameters", "params")
     + impl_entries("ParmsID", "Serializable for ParmsID", "pid")
     + impl_entries("Plaintext", "Serializable for Plaintext", "plain")
+    + impl_entries("SecretKey", "Serializable for SecretKey", "sk")
     + [{"fn": "get_u64_limit", "mode": "P", "lean": "get_u64_limit", "where": "fn get_u64_limit"},
        {"fn": "write_u64_limited", "mode": "W", "lean": "write_u64_limited", "where": "fn write_u64_limited"},
        {"fn": "read_u64_limited", "mode": "R", "lean": "read_u64_limited", "where": "fn read_u64_limited"},
@@ -1160,7 +1179,12 @@ TABLE = (
        {"fn": "deserialize", "impl": "SerializableWithHeContext for Ciphertext", "selfty": "Ciphertext", "mode": "R", "lean": "ct_deserialize", "where": "impl SerializableWithHeContext for Ciphertext :: deserialize", "ctx_first": True, "expand": True},
        {"fn": "serialized_full_size", "impl": "Ciphertext", "selfty": "Ciphertext", "mode": "P", "lean": "ct_serialized_full_size", "where": "impl Ciphertext :: serialized_full_size", "ctx_first": True},
        {"fn": "serialized_size", "impl": "SerializableWithHeContext for Ciphertext", "selfty": "Ciphertext", "mode": "P", "lean": "ct_serialized_size", "where": "impl SerializableWithHeContext for Ciphertext :: serialized_size", "ctx_first": True},
-       {"fn": "serialized_terms_size", "impl": "Ciphertext", "selfty": "Ciphertext", "mode": "P", "lean": "ct_serialized_terms_size", "where": "impl Ciphertext :: serialized_terms_size", "ctx_first": True}]
+       {"fn": "serialized_terms_size", "impl": "Ciphertext", "selfty": "Ciphertext", "mode": "P", "lean": "ct_serialized_terms_size", "where": "impl Ciphertext :: serialized_terms_size", "ctx_first": True},
+       {"fn": "serialized_size", "impl": "SerializableWithHeContext for PublicKey", "selfty": "PublicKey", "mode": "P", "lean": "pk_serialized_size", "where": "impl SerializableWithHeContext for PublicKey :: serialized_size", "ctx_first": True},
+       {"fn": "serialized_size", "impl": "SerializableWithHeContext for Vec<I>", "selfty": ("vec", "I"), "generic": True, "mode": "P", "lean": "cvec_serialized_size", "where": "impl SerializableWithHeContext for Vec<I> :: serialized_size", "drop_ctx": True},
+       {"fn": "serialized_size", "impl": "SerializableWithHeContext for KSwitchKeys", "selfty": "KSwitchKeys", "mode": "P", "lean": "kswitch_serialized_size", "where": "impl SerializableWithHeContext for KSwitchKeys :: serialized_size", "ctx_first": True},
+       {"fn": "serialized_size", "impl": "SerializableWithHeContext for RelinKeys", "selfty": "RelinKeys", "mode": "P", "lean": "relin_serialized_size", "where": "impl SerializableWithHeContext for RelinKeys :: serialized_size", "ctx_first": True},
+       {"fn": "serialized_size", "impl": "SerializableWithHeContext for GaloisKeys", "selfty": "GaloisKeys", "mode": "P", "lean": "galois_serialized_size", "where": "impl SerializableWithHeContext for GaloisKeys :: serialized_size", "ctx_first": True}]
 )
 
 
